@@ -84,6 +84,11 @@ def known_items(it, limit=6):
         return None
     if it.ty in ('tuple', 'list') and it.elts is not None and 0 < len(it.elts) <= limit and not it.maybe_empty and it.elem is None:
         return list(it.elts)
+    if it.ty == 'ndarray' and it.axes and it.axes[0] == 'xyz' and it.litconst is None and it.colvals is None and it.rows is None:
+        # iterating over the three lattice directions: item k belongs to axis k
+        base = it.only('geo', 'mono', 'store', 'dtype', 'taint', 'origin', 'deps', 'idx').w(ty='ndarray' if len(it.axes) > 1 else 'float',
+                                                                                         axes=tuple(it.axes[1:]), view_of=it.store)
+        return [base.w(axis=k) for k in range(3)]
     if it.ty == 'enumerate' and it.inner is not None:
         inner = known_items(it.inner, limit)
         if inner is None:
@@ -731,6 +736,7 @@ class Interp:
         frame.loops.append({'breaks': [], 'continues': []})
         head = st
         exit_st = None
+        self.fix_loops = getattr(self, 'fix_loops', 0) + 1
         for it in range(6):
             self.eval(s.test, frame, head)
             t_st, f_st = self.refine(s.test, frame, head)
@@ -749,6 +755,7 @@ class Interp:
             if state_sig(new_head) == state_sig(head):
                 break
             head = new_head
+        self.fix_loops -= 1
         ctx = frame.loops.pop()
         out = exit_st
         if s.orelse and out is not None:
@@ -783,6 +790,7 @@ class Interp:
         frame.loops.append({'breaks': [], 'continues': []})
         head = st  # state at loop head (before binding the target)
         skip = st.copy()  # zero iterations
+        self.fix_loops = getattr(self, 'fix_loops', 0) + 1
         for i in range(6):
             body_st = head.copy()
             item = _strip_sx(self.model.iter_item(self, body_st, it, s.iter, s))
@@ -800,6 +808,7 @@ class Interp:
                 head = new_head
                 break
             head = new_head
+        self.fix_loops -= 1
         ctx = frame.loops.pop()
         out = join_state(skip, head) if self.model.maybe_empty_iter(it) else head
         if s.orelse and out is not None:
@@ -1342,6 +1351,13 @@ class Interp:
         return self.eval(n.value, frame, st)
 
     def _comp(self, n, frame, st, elt_nodes):
+        self.fix_loops = getattr(self, 'fix_loops', 0) + 1
+        try:
+            return self._comp_inner(n, frame, st, elt_nodes)
+        finally:
+            self.fix_loops -= 1
+
+    def _comp_inner(self, n, frame, st, elt_nodes):
         cst = st.copy()
         maybe_empty = False
         for g in n.generators:
